@@ -180,3 +180,78 @@ func probeWhile(n uint32) (uint32, int) {
 	}
 	return n, steps
 }
+
+// ---------------------------------------------------------------- round 2: struct values, nil-able values, defer,
+// forwarded results, variadic parameters, recorded calls in argument position, calls through function values
+
+type probePair struct {
+	a int
+	b []byte
+}
+
+// probeTag is an interface whose values may be nil; probeID is its only implementation
+type probeTag interface{ tag() int }
+type probeID int
+
+func (p probeID) tag() int { return int(p) }
+
+type probeFn func(int) int
+
+// probeRec: note / done / the function values are INTRINSICS of the whitelist (recorded in ev), not translated
+type probeRec struct {
+	n           int
+	link, other probeTag
+	sub         *probePair
+	fns         []probeFn
+	ev          []TV
+}
+
+func (r *probeRec) note(x int) int {
+	r.ev = append(r.ev, tvList([]TV{tvBytes([]byte("probe.note")), tvInt(int64(x))}))
+	return x + 1
+}
+
+func (r *probeRec) done() { r.ev = append(r.ev, tvList([]TV{tvBytes([]byte("probe.done"))})) }
+
+func probeTwo(x int) (int, int) { return x + 1, x - 1 }
+
+func probeStruct(x int, p []byte) (int, int, int) {
+	q := probePair{a: x, b: p}
+	z := probePair{a: x + 1}
+	return q.a, len(q.b), z.a + len(z.b)
+}
+
+func probeForward(x int) (int, int) { return probeTwo(x) }
+
+func probeVariadic(base int, xs ...int) int {
+	for _, v := range xs {
+		base += v
+	}
+	return base + len(xs)
+}
+
+func (r *probeRec) probeDefer(a, b int) int {
+	r.n++
+	defer r.done()
+	if a < 0 {
+		return r.note(a)
+	}
+	return max(r.note(a), r.note(b))
+}
+
+func (r *probeRec) probeNilable() (bool, bool, bool, int) {
+	s := r.sub
+	if s == nil {
+		return r.link == nil, r.link == r.other, false, 0
+	}
+	return r.link != nil, r.link != r.other, true, s.a
+}
+
+func (r *probeRec) probeFnValues(x int) int {
+	t := 0
+	for i := range r.fns {
+		v := r.fns[i](x)
+		t += v
+	}
+	return t
+}
